@@ -498,7 +498,8 @@ fn e2e_header(r: &mut Report, kind: &str, text: &str, direct: Option<String>, ev
     match (&direct, be.first()) {
         (Some(d), Some(b)) => {
             let got = b.input.member_debug(member);
-            if got == format!("Some({d})") {
+            // (the member is optional for some operations, required for others)
+            if got == format!("Some({d})") || got == *d {
                 r.held(format!("{kind}/header-path/accept"));
             } else {
                 r.violated(format!("C14/{kind}/header-path/differs-from-public-parser"), wit());
@@ -718,6 +719,8 @@ fn check_copy_source(r: &mut Report, bucket: &str, key: &str, version: Option<&s
         }
         format!("C14/copysource/{what}/other")
     };
+    // the same text as the x-amz-copy-source header of a real CopyObject request
+    e2e_header(r, "copy-source", &header, std::panic::catch_unwind(|| CopySource::parse(&header).ok().map(|x| format!("{x:?}"))).ok().flatten(), if systematic_class.is_some() { 1 } else { 16 });
     for (h, form) in [(&header, "plain"), (&header_slash, "leading-slash")] {
         let got = std::panic::catch_unwind(|| CopySource::parse(h));
         let ok = matches!(&got, Ok(Ok(cs)) if *cs == want);
@@ -765,6 +768,24 @@ fn copy_sources(r: &mut Report, g: &mut Rng, n: u64) {
     }
     check_copy_source(r, "bucket-a", "plain/key.txt", None, &mut failing, Some("plain"));
     check_copy_source(r, "bucket-a", "plain/key.txt", Some("abcDEF123"), &mut failing, Some("plain"));
+    // the extremes together: longest bucket name x key of 1024 bytes, every byte percent-encoded on the wire or none x
+    // version ids of assorted lengths (the header is then more than 3 KiB long)
+    for bucket in [format!("b{}", "x".repeat(62)), "abc".to_owned()] {
+        for unit in ["a", " ", "\u{e9}", "\u{65e5}", "\u{1F600}", "%"] {
+            for n in [1020usize, 1023, 1024] {
+                let mut key = String::new();
+                while key.len() + unit.len() <= n {
+                    key.push_str(unit);
+                }
+                while key.len() < n {
+                    key.push(if unit == "a" { 'x' } else { ' ' });
+                }
+                for version in [None, Some("v".to_owned()), Some("3sL4kqtJlcpXroDTDmJ+rmSpXd3dIbrHY+MTRCxf3vjVBH40Nr8X8gdRQBpUMLUo".to_owned()), Some("V".repeat(200)), Some("W".repeat(1024))] {
+                    check_copy_source(r, &bucket, &key, version.as_deref(), &mut failing, Some("extremes"));
+                }
+            }
+        }
+    }
     // random keys
     for _ in 0..n {
         let mut key = String::new();
